@@ -105,7 +105,7 @@ func (w *world) ruleRef(a *agg, stats *counters) {
 		w.c.R.Failf("vacuity: only %d dedup tracker fields (named map/slice types) found on Writer, expected ≥ 3", len(tables))
 	}
 	for _, fn := range w.all {
-		if fn.Blocks == nil || !w.hasWriterParam(fn) || w.inline(fn) {
+		if fn.Blocks == nil || !w.hasWriterParam(fn) || w.rawWriter(fn) {
 			continue
 		}
 		// cheap pre-filter: the function (not its callees) takes len() of a Writer slice field
@@ -124,17 +124,75 @@ func (w *world) ruleRef(a *agg, stats *counters) {
 			a.undecide("REF-1", fname, P.Pos(fn.Pos()), "symbolic execution gave up: "+x.aborted)
 			continue
 		}
+		// fields this function grows on some path (a function that never grows w.X and returns
+		// len(w.X) reports a count, not a reference)
+		grows := map[string]bool{}
+		for _, r := range res {
+			for _, e := range r.St.events {
+				switch e.Kind {
+				case "append", "overwrite":
+					if e.Field != nil {
+						grows[e.Field.Name()] = true
+					}
+				case "call":
+					for _, ch := range e.Changes {
+						grows[ch.Field.Name()] = true
+					}
+				}
+			}
+		}
+		pairTX := map[string]string{} // slice field name -> table field name
+		type pathFacts struct {
+			appends map[string]string // slice field -> pos
+			inserts map[string]bool   // table field
+		}
+		var pfs []pathFacts
 		for _, r := range res {
 			if r.Kind == "panic" {
 				continue
 			}
 			st := r.St
+			if r.Kind == "return" {
+				pf := pathFacts{appends: map[string]string{}, inserts: map[string]bool{}}
+				for _, e := range st.events {
+					if e.Depth != 0 {
+						continue
+					}
+					switch e.Kind {
+					case "append":
+						if tables[e.Field] {
+							pf.inserts[e.Field.Name()] = true
+						} else if e.Field != nil {
+							pf.appends[e.Field.Name()] = P.Pos(ssau.PosOf(e.Instr))
+						}
+					case "mapupdate":
+						if m, ok := e.Map.(MapV); ok && m.Org != nil && tables[m.Org.Field] {
+							pf.inserts[m.Org.Field.Name()] = true
+						}
+					}
+				}
+				pfs = append(pfs, pf)
+			}
 			var caps []capture
 			add := func(av AV, rule, sink string, in ssa.Instruction) {
 				walkNums(st, av, 0, func(p Poly) {
 					for _, s := range p.symbols() {
 						if _, ok := lenSymField(s, x.externs); ok {
 							caps = append(caps, capture{v: p, rule: rule, sink: sink, pos: P.Pos(ssau.PosOf(in)), instr: in})
+							return
+						}
+					}
+					// an index read back from a dedup table must be used as it is
+					for _, s := range p.symbols() {
+						if tab := tableOfLookupSym(s, x.externs, tables); tab != "" && !p.equal(psym(s)) {
+							a.violate("DEDUP-1", fmt.Sprintf("%s#lookup(Writer.%s)→%s", fname, tab, sink), P.Pos(ssau.PosOf(in)),
+								fmt.Sprintf("the index found in w.%s is altered (%s) before it is used: the reference no longer names the deduplicated entry", tab, p))
+							return
+						}
+					}
+					for _, s := range p.symbols() {
+						if tab := tableOfLookupSym(s, x.externs, tables); tab != "" {
+							a.hold("DEDUP-1", fmt.Sprintf("%s#lookup(Writer.%s)→%s", fname, tab, sink), P.Pos(ssau.PosOf(in)), "index found in the table used unmodified")
 							return
 						}
 					}
@@ -172,6 +230,10 @@ func (w *world) ruleRef(a *agg, stats *counters) {
 					for _, el := range e.Elems {
 						add(el, rule, "Writer."+e.Field.Name(), e.Instr)
 					}
+				case "overwrite":
+					if e.Field != nil {
+						add(e.New, "REF-1", "Writer."+e.Field.Name(), e.Instr)
+					}
 				case "store":
 					if e.Field != nil {
 						if _, isInt := e.New.(Num); isInt && e.Field == w.field["bytesWritten"] {
@@ -193,32 +255,45 @@ func (w *world) ruleRef(a *agg, stats *counters) {
 					add(rv, "REF-1", "return", retIn)
 				}
 			}
-			// alternation: two different escaping reads of len(w.X) with no growth of w.X between
-			// them name the same element twice
-			pending := map[*types.Var]Event{}
+			// two different keys of one map must not name the same freshly captured position: each
+			// attribute / semantic has its own data, so one of the two references is wrong
+			type mcap struct {
+				key string
+				v   Poly
+				pos string
+			}
+			byMap := map[string][]mcap{}
 			for ei, e := range st.events {
-				if ei < from {
+				if ei < from || e.Kind != "mapupdate" || e.Depth != 0 {
 					continue
 				}
-				switch e.Kind {
-				case "append", "overwrite":
-					delete(pending, e.Field)
-				case "call":
-					for _, ch := range e.Changes {
-						delete(pending, ch.Field)
-					}
-				case "lenread":
-					call, ok := e.Instr.(*ssa.Call)
-					if !ok || e.Depth != 0 || !lenEscapes(call) {
-						continue
-					}
-					if p, ok := pending[e.Field]; ok && p.Instr != e.Instr {
-						construct := fmt.Sprintf("%s#%s→alternation", fname, e.Field.Name())
-						a.violate("REF-1", construct, P.Pos(ssau.PosOf(e.Instr)),
-							fmt.Sprintf("len(w.%s) is captured as an index here and at %s with no element appended in between: two references name the same (next) element, one of them is not the element whose data it was meant to describe", e.Field.Name(), P.Pos(ssau.PosOf(p.Instr))))
-					}
-					pending[e.Field] = e
+				n, ok := e.New.(Num)
+				if !ok {
+					continue
 				}
+				isLen := false
+				for _, sname := range n.P.symbols() {
+					if _, ok := lenSymField(sname, x.externs); ok {
+						isLen = true
+					}
+				}
+				if !isLen {
+					continue
+				}
+				mk := e.Map.avKey()
+				for _, prev := range byMap[mk] {
+					if prev.key != e.Key.avKey() && prev.v.equal(n.P) {
+						fld := ""
+						for _, sname := range n.P.symbols() {
+							if f, ok := lenSymField(sname, x.externs); ok {
+								fld = f
+							}
+						}
+						a.violate("REF-1", fmt.Sprintf("%s#%s→shared", fname, fld), P.Pos(ssau.PosOf(e.Instr)),
+							fmt.Sprintf("keys %s and %s of one map both record the index %s (captured at %s and here with nothing appended to w.%s in between): two semantics share one element, one of them does not describe the data written for it", prev.key, e.Key.avKey(), n.P, prev.pos, fld))
+					}
+				}
+				byMap[mk] = append(byMap[mk], mcap{e.Key.avKey(), n.P, P.Pos(ssau.PosOf(e.Instr))})
 			}
 			for _, c := range caps {
 				// V = 1·len(w.X…) + k
@@ -232,6 +307,12 @@ func (w *world) ruleRef(a *agg, stats *counters) {
 					}
 				}
 				construct := fmt.Sprintf("%s#%s→%s", fname, fld, c.sink)
+				if c.sink == "return" && !grows[fld] {
+					continue
+				}
+				if c.rule == "DEDUP-1" && strings.HasPrefix(c.sink, "Writer.") {
+					pairTX[fld] = strings.TrimPrefix(c.sink, "Writer.")
+				}
 				if !okForm || c.v.t[sym] != 1 {
 					a.undecide(c.rule, construct, c.pos, "index expression "+c.v.String()+" is not of the form len(w."+fld+") + constant")
 					continue
@@ -287,10 +368,33 @@ func (w *world) ruleRef(a *agg, stats *counters) {
 				}
 			}
 		}
+		// DEDUP-1(d): an entry appended to a deduplicated slice is recorded in its table on the same path
+		for _, xf := range sortedKeys(pairTX) {
+			tab := pairTX[xf]
+			construct := fmt.Sprintf("%s#%s⇒Writer.%s", fname, xf, tab)
+			okAll, where := true, ""
+			n := 0
+			for _, pf := range pfs {
+				if pos, app := pf.appends[xf]; app {
+					n++
+					if !pf.inserts[tab] {
+						okAll, where = false, pos
+					}
+				}
+			}
+			if n == 0 {
+				continue
+			}
+			if okAll {
+				a.hold("DEDUP-1", construct, P.Pos(fn.Pos()), fmt.Sprintf("every path that appends to w.%s records the entry in w.%s", xf, tab))
+			} else {
+				a.violate("DEDUP-1", construct, where, fmt.Sprintf("a path appends an entry to w.%s without recording it in w.%s: the same model will be stored again instead of being shared", xf, tab))
+			}
+		}
 	}
 	w.dedupKeys(a, tables)
-	w.c.R.Floor("REF-1", 8)
-	w.c.R.Floor("DEDUP-1", 5)
+	w.c.R.Floor("REF-1", 15)
+	w.c.R.Floor("DEDUP-1", 9)
 }
 
 func (w *world) readsLenOfWriterField(fn *ssa.Function) bool {
@@ -473,67 +577,27 @@ func appendedFieldValues(arg ssa.Value) []ssa.Value {
 	return out
 }
 
-// lenEscapes: the value of this len() call is kept as an index (stored, put in a map,
-// returned, passed on), not merely compared or used as an allocation size.
-func lenEscapes(call *ssa.Call) bool {
-	seen := map[ssa.Value]bool{}
-	var walk func(v ssa.Value, depth int) bool
-	walk = func(v ssa.Value, depth int) bool {
-		if seen[v] || depth > 8 {
-			return false
-		}
-		seen[v] = true
-		for _, r := range ssau.Refs(v) {
-			switch r := r.(type) {
-			case *ssa.Store:
-				if r.Val == v {
-					if al, ok := r.Addr.(*ssa.Alloc); ok {
-						// local variable: follow its loads
-						for _, lr := range ssau.Refs(al) {
-							if u, ok := lr.(*ssa.UnOp); ok && u.Op == token.MUL && walk(u, depth+1) {
-								return true
-							}
-						}
-						// address taken (pointer to the index kept somewhere)
-						for _, lr := range ssau.Refs(al) {
-							switch lr.(type) {
-							case *ssa.Store, *ssa.UnOp, *ssa.DebugRef:
-							default:
-								return true
-							}
-							if s2, ok := lr.(*ssa.Store); ok && s2.Val == al {
-								return true
-							}
-						}
-						continue
-					}
-					return true
-				}
-			case *ssa.MapUpdate:
-				if r.Value == v || r.Key == v {
-					return true
-				}
-			case *ssa.Return:
-				return true
-			case *ssa.Phi, *ssa.Convert, *ssa.ChangeType, *ssa.MakeInterface:
-				if walk(r.(ssa.Value), depth+1) {
-					return true
-				}
-			case *ssa.BinOp:
-				switch r.Op {
-				case token.ADD, token.SUB:
-					if walk(r, depth+1) {
-						return true
-					}
-				}
-			case *ssa.Call:
-				if b := ssau.Builtin(r); b != "" {
-					continue
-				}
-				return true
-			}
-		}
-		return false
+// tableOfLookupSym: the symbol names a value read from a dedup table of the writer
+// ("lookup(<extern>.<table>…" possibly behind a dereference or field projection).
+func tableOfLookupSym(sym string, externs map[string]bool, tables map[*types.Var]bool) string {
+	i := strings.Index(sym, "lookup(")
+	if i < 0 {
+		return ""
 	}
-	return walk(call, 0)
+	rest := sym[i+len("lookup("):]
+	dot := strings.IndexByte(rest, '.')
+	if dot < 0 || !externs[rest[:dot]] {
+		return ""
+	}
+	name := rest[dot+1:]
+	end := strings.IndexAny(name, ",@#)")
+	if end >= 0 {
+		name = name[:end]
+	}
+	for t := range tables {
+		if t.Name() == name {
+			return name
+		}
+	}
+	return ""
 }
